@@ -32,12 +32,7 @@ func init() { Registry["amf"] = amfDriver }
 func lalView(x interface{}) M {
 	switch t := x.(type) {
 	case float64:
-		id := -1
-		for i, f := range proj.NumPool {
-			if f == t {
-				id = i
-			}
-		}
+		id := proj.NumId(t)
 		if id < 0 {
 			id = 1000000 + int(t)
 		}
